@@ -133,7 +133,7 @@ def snapshot(idnt):
                            if not isinstance(v, np.ndarray)}))
 
 
-def twin(idnt, scale=1.0, retract=None):
+def twin(idnt, scale=1.0, retract=None, gcf=None):
     """a curve with the same approach rows, fit and settings; force and fit
     scaled; retract rows perturbed ('noise') or truncated ('cut')"""
     seg = np.asarray(idnt["segment"]).astype(bool)
@@ -160,6 +160,10 @@ def twin(idnt, scale=1.0, retract=None):
     for c, v in cols.items():
         t[c] = v
     t.fit_properties.update(copy.deepcopy(dict(idnt.fit_properties)))
+    if gcf is not None:
+        # (same columns, same fitted parameters; only the recorded
+        # correction factor differs)
+        dict.__setitem__(t.fit_properties, "gcf_k", gcf)
     return t
 
 
@@ -251,6 +255,20 @@ def oracle(run, name, idnt, fit_state):
                         f"order {list(nn)}, not sorted",
                         payload={"kind": "order", "which": which},
                         theorem="C17_order")
+    # the geometrical correction factor of the fit is not an input of the
+    # features (approach rows, fit column and fitted contact point are)
+    if idnt.fit_properties.get("gcf_k", 1.0) != 1.0:
+        try:
+            w = feats(twin(idnt, gcf=1.0))
+            if not same_vec(w, vals):
+                d = [n for n, a, b in zip(rnames, w, vals)
+                     if not same_vec([a], [b])]
+                fail("gcf", f"features {d} change when only the recorded "
+                     "correction factor of the fit is set to 1 (columns and "
+                     "fitted parameters unchanged)", "C17 (approach only)")
+        except BaseException as e:
+            fail("gcf-raised", f"twin with gcf_k = 1 raised "
+                 f"{type(e).__name__}: {e}", "C17 (approach only)")
     # force unit
     for c, tol in [(2.0 ** 10, 0.0), (2.0 ** -7, 0.0), (3.7, 1e-9),
                    (2.0 ** 30, 0.0), (1e6, 1e-9), (2.0 ** -20, 0.0)]:
@@ -690,6 +708,8 @@ def check(run):
                 # the approach segment (NaN where they need its fit)
                 states["retract-fitted"] = fitted(cols, k, segment="retract",
                                                   **kw)
+                states["fitted-with-correction-factor"] = fitted(
+                    cols, k, gcf_k=0.5, **kw)
                 if run.tier != "quick":
                     states["fitted-weighted"] = fitted(
                         cols, k, weight_cp=5e-7, range_x=[-2e-6, 2e-6], **kw)
